@@ -69,7 +69,9 @@ fn main() {
 		"C15" => props::c15::run(&ctx, &mut rep),
 		"C16" => props::c16::run(&ctx, &mut rep),
 		"C17" => props::c17::run(&ctx, &mut rep),
+		"C18" => props::c18::run(&ctx, &mut rep),
 		"C19" => props::c19::run(&ctx, &mut rep),
+		"C20" => props::c20::run(&ctx, &mut rep),
 		_ => {
 			eprintln!("unknown property {prop}");
 			std::process::exit(2);
